@@ -179,11 +179,15 @@ def mutate(src, r, nfaults=None):
     lines = src.split('\n')
     n = nfaults if nfaults is not None else r.choice([1, 1, 1, 2, 3, 5, 13])
     for _ in range(n):
-        op = r.choice(['del', 'dup', 'swap', 'ins', 'ins', 'ins'])
+        op = r.choice(['del', 'dup', 'swap', 'ins', 'ins', 'ins', 'cr'])
         if not lines:
             op = 'ins'
         i = r.randrange(len(lines)) if lines else 0
-        if op == 'del':
+        if op == 'cr':
+            # a stray carriage return: not a line end for io.StringIO (lines end at LF only)
+            j = r.randrange(len(lines[i]) + 1)
+            lines[i] = lines[i][:j] + r.choice(['\r', '\r\r', '\x0b', '\x0c', '\x85', '\u2028']) + lines[i][j:]
+        elif op == 'del':
             del lines[i]
         elif op == 'dup':
             lines.insert(i, lines[i])
